@@ -60,7 +60,8 @@ pub fn run_scenario(scen: &Scenario) -> Report {
     std::fs::create_dir_all(&scratch).unwrap();
     let dir = scratch.join("db");
     let dry = scen.extra.get("dry").and_then(|x| x.as_bool()).unwrap_or(false);
-    let keep_trace = scen.checks.rules || scen.checks.intact || dry;
+    let kind0 = scen.extra.get("kind").and_then(|x| x.as_str()).unwrap_or("history");
+    let keep_trace = scen.checks.rules || scen.checks.intact || dry || kind0 == "openrace";
     let yield_on_events = scen.extra.get("yield_on_events").and_then(|x| x.as_bool()).unwrap_or(true);
     let disk = Arc::new(SimDisk::new(scratch.clone(), scen.faults.clone(), scen.knobs.clone(), keep_trace, yield_on_events));
     simrt::hooks::install(disk.clone());
